@@ -122,6 +122,11 @@ def readonly_battery(n):
 
     [ASTXpath("//RL").match(n, i.node) for i in n.dfs()], ASTXpath("/RP").match(n, n), ASTXpath("//RL").match(t, n)
     NodeMatcher.from_pattern("(* @v -> x)")[0].match(n)
+    # captures whose values are NODES (the matched child, the node itself through a parent pattern)
+    NodeMatcher.from_pattern("(RP @c -> kid)")[0].match(n), NodeMatcher.from_pattern("(RP @c=(* @nc -> hidden) -> kidb)")[0].match(n)
+    from pyoak.match.pattern import MultiPatternMatcher
+
+    MultiPatternMatcher([("leaf", "(RL @v -> val)"), ("parent", "(RP @c=(* @v -> inner) -> held)")]).match(n)
     _V().visit(n)
     n == n, hash(n), repr(n), n.is_equal(n), n.as_dict(), n.to_json(), n.to_yaml(), n.to_msgpck()
 
